@@ -26,6 +26,8 @@ def run(payload):
                 r['n_h'] = len(m.h_field)
                 txt = m.near_field_as_mininec()
                 r['rep_points'] = txt.count('FIELD POINT:')
+                import re as _re
+                r['rep_coord'] = [[float(x) for x in mm] for mm in _re.findall(r'FIELD POINT: X =\s*(\S+)\s+Y =\s*(\S+)\s+Z =\s*(\S+)', txt)]
             if 'far' in case:
                 t0, dt, nt, p0, dp, np_ = case['far']
                 zen = Angle(float.fromhex(t0), float.fromhex(dt), int(nt))
@@ -34,6 +36,9 @@ def run(payload):
                 r['zen'] = [hx(v) for v in m.far_field.zen.flat]
                 r['azi'] = [hx(v) for v in m.far_field.azi.flat]
                 r['rep_rows'] = len(m.far_field.db_as_mininec().split('\n'))
+                # the angles of the printed rows, dB table and V/m table
+                r['rep_db'] = [[float(x) for x in l.split()[:2]] for l in m.far_field.db_as_mininec().split('\n')]
+                r['rep_abs'] = [[float(x) for x in l.split()[:2]] for l in m.far_field.abs_gain_as_mininec().split('\n')]
                 r['gain_shape'] = list(m.far_field.gain.shape)
         except Exception as e:
             r['error'] = exc_info(e)
